@@ -17,6 +17,9 @@ def fams(tier):
 
 
 def main(argv):
-    nxprops.run_check("C20", argv, ["C20"], RULE, fam_fn=fams,
+    import rbchecks
+    nxprops.run_check("C20", argv, ["C20"], RULE + "; engine B: a command whose background process writes to the inherited pipe after the "
+                      "shell has exited (real pipes: everything it wrote is shown once, as one block)", fam_fn=fams,
+                      process_level=rbchecks.c20_process_level,
                       extra_assumptions=["dumb (non-tty) terminal only in this engine; commands' output is delivered at "
                                          "completion (pieces over time through real pipes are outside engine A)"])
